@@ -749,6 +749,14 @@ def straddling_only(which, ts, L, R, lk, rk, la, ra, t, kw, a, b):
     diff = sorted(pa ^ pb, key=str)
     if not diff:
         return False, []
+    # rows of the pairs both results contain must be identical (values, scores), otherwise something else differs too
+    cols = [c for c in a.columns if c != '_id']
+    if list(b.columns) != list(a.columns):
+        return False, diff
+    rows_a = {p: json.dumps([cell(x) for x in r]) for p, r in zip(out_pairs(a, lcol, rcol), a[cols].itertuples(index=False, name=None))}
+    rows_b = {p: json.dumps([cell(x) for x in r]) for p, r in zip(out_pairs(b, lcol, rcol), b[cols].itertuples(index=False, name=None))}
+    if any(rows_a[p] != rows_b[p] for p in pa & pb):
+        return False, diff
     lval = {keyv(k): x for k, x in zip(L[lk], L[la])}
     rval = {keyv(k): x for k, x in zip(R[rk], R[ra])}
     op = OPS[kw.get('comp_op', '>=')]
@@ -1190,9 +1198,10 @@ def oracle_converter(rng, n, stats, known):
                 res = dataframe_column_to_str(df, 'c', inplace, return_col)
                 holder = df['c']
         except Exception as e:   # noqa: BLE001
-            if mode == 'series' and inplace and numeric and present:
+            if mode == 'series' and inplace and numeric and present and isinstance(e, TypeError) and 'Invalid value' in str(e):
+                # known finding K1 exactly: pandas >= 3 refuses to re-type a standalone Series in place
                 stats.hit('oracle.converter.known_series_inplace')
-                known.append(('C16', 'series_to_str(numeric, inplace=True)'))
+                known.append(('C16', 'K1'))
                 continue
             v.append(viol('C16', 'conversion raised %s: %s' % (type(e).__name__, str(e)[:80]), case))
             continue
